@@ -65,8 +65,16 @@ pub fn gen_assoc_program(t: &mut Tape) -> Program {
                 wcs.push(TRef { tr: if t.chance(60) { 0 } else { tr }, args: vec![Ty::Param(0)] });
             }
             // value: ground, over the parameter, nested, or a projection of the parameter
-            let value = match t.choose(6) {
+            let value = match t.choose(7) {
                 0 => Ty::Adt(t.choose(3), vec![]),
+                6 if np > 0 => {
+                    // a projection of the parameter nested inside a constructor: the value itself has to be normalized
+                    let other = 1 + t.choose(na);
+                    if !wcs.iter().any(|wc: &TRef| wc.tr == other) {
+                        wcs.push(TRef { tr: other, args: vec![Ty::Param(0)] });
+                    }
+                    Ty::Adt(if t.chance(50) { v } else { w }, vec![Ty::Proj(other, 0, vec![Ty::Param(0)])])
+                }
                 1 if np > 0 => Ty::Param(0),
                 2 if np > 0 => Ty::Adt(v, vec![Ty::Param(0)]),
                 3 if np > 0 => {
